@@ -120,6 +120,14 @@ func (p *untypedParamBinder) typeForSchema(tpe, format string, items *spec.Items
 	return nil
 }
 
+// headerValues looks header parameters up the way http.Header does: header names are
+// case-insensitive, whatever the case the parameter name is declared in.
+type headerValues http.Header
+
+func (h headerValues) GetOK(key string) ([]string, bool, bool) {
+	return runtime.Values(h).GetOK(http.CanonicalHeaderKey(key))
+}
+
 func (p *untypedParamBinder) allowsMulti() bool {
 	return p.parameter.In == "query" || p.parameter.In == "formData"
 }
@@ -162,7 +170,7 @@ func (p *untypedParamBinder) Bind(request *http.Request, routeParams RouteParams
 		return p.bindValue(data, hasKey, target)
 
 	case "header":
-		data, custom, hasKey, err := p.readValue(runtime.Values(request.Header), target)
+		data, custom, hasKey, err := p.readValue(headerValues(request.Header), target)
 		if err != nil {
 			return err
 		}
